@@ -43,7 +43,7 @@ var c06Positions = []struct{ name, src string }{
 }
 
 // routes by which the sandboxed template reaches the position
-var c06Routes = []string{"direct", "include", "include-only", "include-with", "extends", "import-macro", "from-macro", "parent-block", "local-macro", "nested-include-2", "import-toplevel", "from-toplevel"}
+var c06Routes = []string{"direct", "include", "include-only", "include-with", "extends", "import-macro", "from-macro", "parent-block", "local-macro", "nested-include-2", "import-toplevel", "from-toplevel", "extends-bare", "extends-bare-2"}
 
 func c06Templates(route, pos string) map[string]string {
 	t := map[string]string{"show": "{{ v }}"}
@@ -73,6 +73,14 @@ func c06Templates(route, pos string) map[string]string {
 		t["lib"] = "{% macro mac(x, xs) %}" + pos + "{% endmacro %}"
 	case "local-macro":
 		t["box"] = "{% macro mac(x, xs) %}" + pos + "{% endmacro %}[{{ mac(x, xs) }}]"
+	case "extends-bare":
+		// the sandboxed template defines no block at all: everything it renders is its parent's
+		t["box"] = "{% extends 'layout' %}"
+		t["layout"] = "[{% block c %}" + pos + "{% endblock %}]"
+	case "extends-bare-2":
+		t["box"] = "{% extends 'mid' %}"
+		t["mid"] = "{% extends 'layout' %}"
+		t["layout"] = "[" + pos + "{% block c %}b{% endblock %}]"
 	case "import-toplevel":
 		// the library's own top-level code runs while it is imported: inside the sandbox too
 		t["box"] = "[{% import 'lib' as L %}{{ L.ok() }}]"
